@@ -75,7 +75,7 @@ ExpSmallH(x) == LET cx == IsCx(x.T) IN
                   [] x.op = "minimum" -> HMin(x.a) [] x.op = "maximum" -> HMax(x.a)
 \* preconditions of the exact-data argument (a failure here is a generator/recorder mistake, reported as such)
 PreSmall(x) == \A i \in 1..x.N :
-                 CASE x.op = "div" /\ ~IsIntT(x.T) -> (IF IsCx(x.T) THEN CDivOK(Opnd(x, i)[1], Opnd(x, i)[2]) ELSE Opnd(x, i)[2] # 0 /\ ExactDiv(Opnd(x, i)[1], Opnd(x, i)[2]))
+                 CASE x.op = "div" /\ ~IsIntT(x.T) /\ ~Bits(x) -> (IF IsCx(x.T) THEN CDivOK(Opnd(x, i)[1], Opnd(x, i)[2]) ELSE Opnd(x, i)[2] # 0 /\ ExactDiv(Opnd(x, i)[1], Opnd(x, i)[2]))
                    [] x.op = "div" /\ IsIntT(x.T) /\ ~Bits(x) -> Opnd(x, i)[2] # 0
                    [] x.op = "sqrt" /\ ~Bits(x) -> \E r \in 0..1024 : r * r = x.a[i]
                    [] x.op = "crcp" -> Norm2(x.a[i]) \in {1, 2, 4}
@@ -117,6 +117,12 @@ Verdict(x, o, ev_exp) ==
     ELSE IF ~RefConsistent(x) \/ (IsIntT(x.T) /\ ~RefConsistentInt(x)) THEN "ref_table_inconsistent"
     ELSE IF x.op \in {"rcp", "rsqrt"} THEN
         (IF o.n = N /\ Len(o.err) = N /\ \A i \in 1..N : o.err[i] <= ApproxBound THEN "ok" ELSE "bad")
+    ELSE IF x.form = "gp" /\ o.fault = 1 THEN "masked_access_faults"      \* a disabled lane was touched: it lies in a PROT_NONE page
+    ELSE IF x.op = "mstore" /\ x.form = "gp" THEN
+        \* remainder mask in front of a guard page: the enabled lanes 0..rem-1 hold the vector's lanes (a touched disabled lane faults)
+        (IF x.mask = (2 ^ x.rem) - 1 /\ o.w = [i \in 1..x.rem |-> x.a[i]] THEN "ok"
+         ELSE IF x.N = 16 /\ o.w = [i \in 1..x.rem |-> IF i <= 8 THEN x.a[i] ELSE x.pre[i]] THEN "mask_width8"
+         ELSE "bad")
     ELSE IF x.op \in {"store", "astore", "mstore"} THEN
         (IF o.blk = Guarded(BodyAfter(x, IF x.op = "mstore" THEN x.mask ELSE 0), IsCx(x.T)) THEN "ok"
          \* named deviations: the disabled lanes of the window are overwritten with 0; only the low 8 mask bits of a 16-lane vector are honoured
@@ -163,6 +169,7 @@ Init == l = 1
 Next == /\ l <= Len(Tr)
         /\ LET ev == Tr[l] IN
              CASE ev.e = "Simd" -> JudgeSimd(ev)
+               [] ev.e = "Meta" -> TRUE          \* L2 binding data (declared mask width), compared with Mask.tla by the driver: drift, never a verdict
                [] ev.e \in {"Fault", "CompileFail"} -> \A k \in 1..Len(ev.outs) : Reject(l, ev.case, ev.outs[k].cfg)
         /\ l' = l + 1
 Spec == Init /\ [][Next]_l
